@@ -155,7 +155,18 @@ def lex_comment(
     then returns what they return.
     """
 
-    if char in c_info["multi_chars"]:
+    if (
+        preserve["state"] == Preserve.COMMENT
+        and preserve["end"] in c_info["single_comments"].values()
+    ):
+        # Already inside a comment that a single character ends (like
+        # "# ... newline"): everything up to that character is comment
+        # text, even if it looks like the delimiter of another kind of
+        # comment.
+        return lex_singlechar_comments(
+            char, lexeme, preserve, c_info["single_comments"]
+        )
+    elif char in c_info["multi_chars"]:
         return lex_multichar_comments(
             char,
             prev_char,
